@@ -20,6 +20,10 @@ const P: &str = "C10";
 enum Step {
 	WsCall(usize, &'static str),
 	WsSub(usize),
+	/// a subscribe call whose handler accepts only after a while (possibly after the stop)
+	WsSlowSub(usize),
+	/// a call that never finishes; its connection is left by the peer after the stop (possibly after one more frame)
+	WsHang(usize),
 	HttpCall(usize, &'static str),
 	Settle(u32),
 	WsDisconnect(usize),
@@ -44,7 +48,9 @@ pub async fn scenario() {
 	let mut steps = Vec::new();
 	for _ in 0..n_steps {
 		let m = *rt::pick("method", &["echo", "aecho", "aecho", "becho"]);
-		steps.push(match rt::draw("step", 12) {
+		steps.push(match rt::draw("step", 15) {
+			12 | 13 if n_ws > 0 => Step::WsSlowSub(rt::draw("c", n_ws as u32) as usize),
+			14 if n_ws > 0 && !sweep_base => Step::WsHang(rt::draw("c", n_ws as u32) as usize),
 			0..=4 if n_ws > 0 => Step::WsCall(rt::draw("c", n_ws as u32) as usize, m),
 			5 if n_ws > 0 => Step::WsSub(rt::draw("c", n_ws as u32) as usize),
 			6..=8 if n_http > 0 => Step::HttpCall(rt::draw("c", n_http as u32) as usize, m),
@@ -93,6 +99,7 @@ pub async fn scenario() {
 	let mut nonce = 500u64;
 	let mut sent_ws: Vec<(usize, u64, u64)> = Vec::new(); // (conn, nonce, stamp)
 	let mut sent_http: Vec<(usize, u64)> = Vec::new();
+	let mut hang_conns: Vec<usize> = Vec::new();
 	let mut stop_stamp = None;
 	let mut http_tasks = Vec::new();
 	for step in &steps {
@@ -110,8 +117,30 @@ pub async fn scenario() {
 			Step::WsSub(c) if *c < n_ws => {
 				if let Some(tx) = ws[*c].tx.as_mut() {
 					let msg = format!("{{\"jsonrpc\":\"2.0\",\"id\":{nonce},\"method\":\"sub\",\"params\":[{nonce}]}}");
-					rt::event("dir-ws-sub", format!("c{c}"));
-					let _ = world::ws_send(tx, msg.as_bytes(), false).await;
+					let st = rt::event("dir-ws-sub", format!("c{c}"));
+					if world::ws_send(tx, msg.as_bytes(), false).await.is_ok() {
+						sent_ws.push((*c, nonce, st));
+					}
+				}
+			}
+			Step::WsSlowSub(c) if *c < n_ws => {
+				if let Some(tx) = ws[*c].tx.as_mut() {
+					let msg = format!("{{\"jsonrpc\":\"2.0\",\"id\":{nonce},\"method\":\"dsub\",\"params\":[{nonce}]}}");
+					let st = rt::event("dir-ws-slow-sub", format!("c{c} {msg}"));
+					if world::ws_send(tx, msg.as_bytes(), false).await.is_ok() {
+						sent_ws.push((*c, nonce, st));
+					}
+				}
+			}
+			Step::WsHang(c) if *c < n_ws && !hang_conns.contains(c) => {
+				if let Some(tx) = ws[*c].tx.as_mut() {
+					let msg = format!("{{\"jsonrpc\":\"2.0\",\"id\":{nonce},\"method\":\"hang\",\"params\":[{nonce}]}}");
+					let st = rt::event("dir-ws-hang-call", format!("c{c} {msg}"));
+					rt::probe("never_ending_call");
+					if world::ws_send(tx, msg.as_bytes(), false).await.is_ok() {
+						sent_ws.push((*c, nonce, st));
+						hang_conns.push(*c);
+					}
 				}
 			}
 			Step::HttpCall(c, m) => {
@@ -135,6 +164,10 @@ pub async fn scenario() {
 					let st = rt::event("dir-ws-disconnect", format!("c{c}"));
 					rt::probe("fault.peer_disconnect");
 					drop(tx);
+					if rt::chance("disconnect_for_good", 1, 2) {
+						// (dropping the writer alone leaves the socket open in the reader's hands)
+						ws[*c].ctl.reset();
+					}
 					ws[*c].disconnected = Some(st);
 				}
 			}
@@ -149,6 +182,36 @@ pub async fn scenario() {
 			_ => {}
 		}
 		rt::yield_n(rt::draw("between", 3)).await;
+	}
+	// a connection with a call that never finishes is left by its peer after the stop: possibly one more frame first
+	// (the server has to keep reading the socket while it drains), then the peer goes away
+	for c in hang_conns {
+		if ws[c].tx.is_none() {
+			// the writer half is gone already (an earlier disconnect step): make the peer go away for good
+			ws[c].ctl.reset();
+			continue;
+		}
+		if let Some(mut tx) = ws[c].tx.take() {
+			tokio::time::sleep(Duration::from_millis(rt::draw_range("leave_after_ms", 1, 20) as u64)).await;
+			if rt::chance("late_frame", 2, 3) {
+				nonce += 1;
+				let msg = format!("{{\"jsonrpc\":\"2.0\",\"id\":{nonce},\"method\":\"echo\",\"params\":[{nonce}]}}");
+				rt::event("dir-ws-late-frame", format!("c{c}"));
+				let _ = tokio::time::timeout(Duration::from_millis(100), world::ws_send(&mut tx, msg.as_bytes(), false)).await;
+				tokio::time::sleep(Duration::from_millis(rt::draw_range("leave_after_ms2", 1, 20) as u64)).await;
+			}
+			let st = rt::event("dir-ws-disconnect", format!("c{c} (after a never-ending call)"));
+			rt::probe("fault.peer_disconnect");
+			if rt::chance("close_frame", 1, 2) {
+				let _ = tokio::time::timeout(Duration::from_millis(100), tx.close()).await;
+			} else {
+				// (the reader task of the harness still holds the other half of the socket: a reset is what makes the
+				// peer really go away)
+				ws[c].ctl.reset();
+			}
+			drop(tx);
+			ws[c].disconnected = Some(st);
+		}
 	}
 	// stopping twice never panics or hangs
 	let _ = handle.stop();
@@ -178,11 +241,19 @@ pub async fn scenario() {
 	}
 	// ---------------- oracle ----------------
 	let log = world.log.lock().unwrap();
-	if log.invocations.len() > inv_at_stopped {
-		rt::violate(P, "executed-after-stopped", format!("{entry:?}"), format!("{} handler(s) started after stopped() had resolved", log.invocations.len() - inv_at_stopped));
-	}
+	let _ = inv_at_stopped;
 	for inv in &log.invocations {
 		if inv.stamp > stopped_stamp && stopped.is_ok() {
+			// A call that was sent before, on a connection whose peer went away before stopped() resolved, may still be
+			// picked up by its (detached) task afterwards: nobody is there to be answered, the connection is finished
+			// and the property does not speak about it. Everything else - the call of the late peer, a call on a
+			// connection that is still there - must not run.
+			let n = inv.params.as_ref().and_then(|p| serde_json::from_str::<Vec<u64>>(p).ok()).and_then(|v| v.first().copied());
+			let peer_left_before = n.and_then(|n| sent_ws.iter().find(|s| s.1 == n)).is_some_and(|(c, _, sent)| *sent < stopped_stamp && ws[*c].disconnected.is_some_and(|d| d < stopped_stamp));
+			if peer_left_before {
+				rt::probe("handler_ran_after_stopped_for_a_peer_that_left");
+				continue;
+			}
 			rt::violate(P, "executed-after-stopped", format!("{entry:?}:stamp"), format!("handler {} started at #{} after stopped() resolved at #{stopped_stamp}", inv.method, inv.stamp));
 		}
 	}
@@ -198,10 +269,12 @@ pub async fn scenario() {
 	// every call whose handler started is answered to its peer
 	let mut nontrivial = false;
 	for inv in log.invocations.iter().filter(|i| i.method != "sub") {
+		// (the answer to a subscribe call is the subscription id)
+		let is_sub_call = inv.method == "dsub";
 		let Some(n) = inv.params.as_ref().and_then(|p| serde_json::from_str::<Vec<u64>>(p).ok()).and_then(|v| v.first().copied()) else { continue };
 		if let Some((c, _, _)) = sent_ws.iter().find(|s| s.1 == n) {
 			let w = &ws[*c];
-			let answered = w.frames.lock().unwrap().iter().any(|(_, f)| f.get("id") == Some(&Value::from(n)) && f.get("result") == Some(&serde_json::json!([n])));
+			let answered = w.frames.lock().unwrap().iter().any(|(_, f)| f.get("id") == Some(&Value::from(n)) && (f.get("result") == Some(&serde_json::json!([n])) || (is_sub_call && f.get("result").is_some())));
 			let peer_gone = w.disconnected.is_some();
 			if !answered && !peer_gone {
 				let in_flight_at_stop = stop_stamp.is_some_and(|s| inv.stamp < s);
